@@ -314,6 +314,21 @@ def reader_summaries(S, V):
         if len(l) < n: return lib.one(env, eof())
         se.store(env, dst, l[:n]); se.store(env, r, l[n:]); return lib.one(env, Enum('Ok', ((),)))
     P[r'<&\[u8\] as (?:std::io::)?Read>::read_exact'] = read_exact; P[r'<R as (?:std::io::)?Read>::read_exact'] = read_exact
+    # bounded readers: reader.by_ref().take(n).read_to_end(&mut vec) moves min(n, bytes left) bytes
+    P[r'<&\[u8\] as (?:std::io::)?Read>::by_ref'] = lib.ident; P[r'<R as (?:std::io::)?Read>::by_ref'] = lib.ident
+    def take(se, env, pc, r, n): return lib.one(env, {'take_of': r, 'limit': n, '__ty': 'Take'})
+    P[r'<&mut &\[u8\] as (?:std::io::)?Read>::take'] = take; P[r'<&mut R as (?:std::io::)?Read>::take'] = take; P[r'<&\[u8\] as (?:std::io::)?Read>::take'] = take
+    def take_read_to_end(se, env, pc, t, dst):
+        tv = se.deref(env, t) if isinstance(t, Ref) else t
+        if not (isinstance(tv, dict) and 'take_of' in tv): raise Inconclusive('read_to_end on %r' % (tv,))
+        r = tv['take_of']; l = V(se, env, r); lim = tv['limit']
+        outs = []
+        for k in range(len(l) + 1):
+            cond = (lim == BitVecVal(k, lim.size())) if k < len(l) else UGE(lim, BitVecVal(k, lim.size()))
+            outs.append((cond, Enum('Ok', (BitVecVal(k, 64),)), env.get('$state'), [(dst, list(V(se, env, dst)) + l[:k]), (r, l[k:])]))
+        return outs
+    P[r'<(?:std::io::)?Take<.*> as (?:std::io::)?Read>::read_to_end'] = take_read_to_end
+    P[r'<u64 as From<u32>>::from'] = lambda se, env, pc, x: lib.one(env, ZeroExt(32, x))
     def from_elem(se, env, pc, z, n):
         c = se.concretize(n)
         K = 40           # no buffer of these obligations is longer: a vector of K + 1 bytes makes the following read_exact fail
